@@ -460,29 +460,25 @@ func (p *Prog) deleteGuards(ea *ErrAtoms) []Ob {
 	}
 	ob.Pos, ob.Func = p.posStr(del.Pos()), funcLabel(del)
 	var guardBlock *ssa.BasicBlock
+	guardEdge := 1
 	for _, b := range del.Blocks {
 		iff, ok := terminator(b).(*ssa.If)
 		if !ok {
 			continue
 		}
-		bo, ok := iff.Cond.(*ssa.BinOp)
-		if !ok || bo.Op != token.EQL {
+		lv, emptyE, ok := lenZeroEdge(iff.Cond)
+		if !ok {
 			continue
 		}
-		k, isK := constInt(bo.Y)
-		c, isCall := bo.X.(*ssa.Call)
-		if !isK || k != 0 || !isCall || !isBuiltinCall(c.Common(), "len") {
+		if _, isParam := canon(lv).(*ssa.Parameter); !isParam {
 			continue
 		}
-		if _, isParam := canon(c.Call.Args[0]).(*ssa.Parameter); !isParam {
-			continue
-		}
-		if _, isMap := c.Call.Args[0].Type().Underlying().(*types.Map); !isMap {
+		if _, isMap := lv.Type().Underlying().(*types.Map); !isMap {
 			continue
 		}
 		// true edge returns success (nil error) directly
-		if rt, ok := terminator(b.Succs[0]).(*ssa.Return); ok && !ea.isFailureReturn(del, rt) && pureBlock(b.Succs[0]) {
-			guardBlock = b
+		if rt, ok := terminator(b.Succs[emptyE]).(*ssa.Return); ok && !ea.isFailureReturn(del, rt) && pureBlock(b.Succs[emptyE]) {
+			guardBlock, guardEdge = b, 1-emptyE
 		}
 	}
 	if guardBlock == nil {
@@ -503,7 +499,7 @@ func (p *Prog) deleteGuards(ea *ErrAtoms) []Ob {
 			if nm == "fmt.Errorf" || nm == "errors.New" {
 				continue
 			}
-			if !edgeDominates(guardBlock, 1, b) && !(b == guardBlock) {
+			if !edgeDominates(guardBlock, guardEdge, b) && !(b == guardBlock) {
 				// calls before the guard are fine only if they cannot have effects: none expected
 				if b.Dominates(guardBlock) {
 					bad = p.at(ins)
